@@ -20,15 +20,15 @@ import (
 )
 
 type line struct {
-	Kind   string    `json:"kind"` // "hello" | "root" | "txlist"
-	K      int       `json:"k"`
-	N      int       `json:"n,omitempty"`
-	Case   int       `json:"case,omitempty"`
-	Chains int       `json:"chains,omitempty"`
-	MaxSeg int       `json:"maxseg,omitempty"`
-	Inter  bool      `json:"interleaved,omitempty"`
-	Fail   string    `json:"fail,omitempty"`
-	Txs    []c18.Tx  `json:"txs,omitempty"`
+	Kind   string   `json:"kind"` // "hello" | "root" | "txlist"
+	K      int      `json:"k"`
+	N      int      `json:"n,omitempty"`
+	Case   int      `json:"case,omitempty"`
+	Chains int      `json:"chains,omitempty"`
+	MaxSeg int      `json:"maxseg,omitempty"`
+	Inter  bool     `json:"interleaved,omitempty"`
+	Fail   string   `json:"fail,omitempty"`
+	Txs    []c18.Tx `json:"txs,omitempty"`
 }
 
 func parseNs(s string) (out []int) {
